@@ -524,12 +524,23 @@ def _lh_vals(n, k, exact32):
     return vals
 
 
-def _mk_geo(k, valid, exact32=True):
+def _mk_geo(k, valid, exact32=True, forms=False):
+    import numpy as np
     from cflib.crazyflie.mem.lighthouse_memory import LighthouseBsGeometry
     v = _lh_vals(12, k, exact32)
     g = LighthouseBsGeometry()
     g.origin = v[0:3]
     g.rotation_matrix = [v[3:6], v[6:9], v[9:12]]
+    # the containers a caller has at hand: lists, numpy arrays (the geometry estimator's output), tuples (memory layout
+    # only: the YAML file format is defined for lists)
+    if not forms:
+        pass
+    elif k % 3 == 1:
+        g.origin = np.array(g.origin, dtype=float)
+        g.rotation_matrix = np.array(g.rotation_matrix, dtype=float)
+    elif k % 3 == 2:
+        g.origin = tuple(g.origin)
+        g.rotation_matrix = tuple(tuple(r) for r in g.rotation_matrix)
     g.valid = valid
     return g, v
 
@@ -583,7 +594,7 @@ def case_lh_mem(p, prm):
     h = ByteMem(0x2000, fill=fill)
     m = h.attach(LighthouseMemory(id=4, type=0x14, size=0x2000, mem_handler=h))
     if kind == 'geo':
-        obj, v = _mk_geo(k, valid)
+        obj, v = _mk_geo(k, valid, forms=True)
         addr, exp = bs * 0x100, D.geo_image(v[0:3], [v[3:6], v[6:9], v[9:12]], valid)
     else:
         obj, v = _mk_calib(k, valid)
@@ -1039,7 +1050,9 @@ def case_led(p, prm):
 
 def _deck_name(n, seed, junk):
     s = bytes(33 + (seed * 5 + i * 11) % 94 for i in range(n))        # printable ASCII
-    if junk and n < 17:
+    if junk == 2 and n < 17:
+        s += b'\0' + b'\xff' * (17 - n)                                # erased-flash filler after the terminator (not text)
+    elif junk and n < 17:
         s += b'\0' + bytes([0x41 + seed % 26]) * (17 - n)             # stale bytes after the terminator
     return s
 
@@ -1053,7 +1066,7 @@ def gen_deck(tier):
                 yield {'slot': slot, 'bf1': bf1, 'bf2': bf2, 'k': k, 'version': 3, 'junk_bits': False}
     for slot in range(8):
         for n in range(19):
-            for junk in (False, True):
+            for junk in (False, True, 2):
                 k += 1
                 yield {'slot': slot, 'bf1': 1 | (n * 2) % 128, 'bf2': n % 4, 'k': k, 'version': 3, 'name_len': n,
                        'name_junk': junk, 'junk_bits': False}
